@@ -1579,13 +1579,26 @@ class ScenarioOutline(Scenario):
 
     def compute_status(self):
         skipped_count = 0
+        passed_count = 0
+        if not self._scenarios and self._expected_scenarios_count() > 0:
+            # -- NOT EXECUTED: Scenarios are not even built yet.
+            return Status.untested
+
         for scenario in self._scenarios:    # -- AVOID: BUILD-SCENARIOS
             scenario_status = scenario.status
             this_status = OuterStatus.from_inner_status(scenario_status)
             if this_status.has_failed():
                 return this_status
+            elif scenario_status == Status.untested:
+                # -- SAME AS: ScenarioContainer.compute_status()
+                if passed_count > 0:
+                    # -- TEST-RUN WAS ABORTED: Some passed, now untested -> FAILED.
+                    return Status.failed
+                return Status.untested
             elif scenario_status == Status.skipped:
                 skipped_count += 1
+            elif scenario_status == Status.passed:
+                passed_count += 1
         if skipped_count > 0 and skipped_count == len(self._scenarios):
             # -- ALL SKIPPED:
             return Status.skipped
